@@ -79,8 +79,9 @@ LEVEL_TEXT = ('Proved in Lean for every object graph, application config, path a
               'string.punctuation to "_". Beyond the statement (model + theorem + correspondence, no oracle clause): '
               'Tree.script_name returns the longest mounted script name ending at a segment boundary of the path; VirtualHost '
               'and XMLRPCDispatcher are the default dispatcher on a rewritten path. Partial: Python attribute lookup is the '
-              'serialised attribute view of the real objects; purity is checked on the implementation only (the model is a '
-              'function by construction).')
+              'serialised attribute view of the real objects; purity - sequential histories and two or three requests in flight '
+              'under a deterministic gate scheduler - is checked on the implementation only (the model is a function by '
+              'construction).')
 LEVEL_NOTE = ('Trusted: Lean kernel, the hand models lean/CpModel/Dispatch.lean and DispatchFn.lean as validated by the '
               'differential run, the serialised getattr view of the generated objects and the recorded dispatcher calls '
               '(Python semantics), the harness.')
@@ -105,7 +106,8 @@ RULE = ('random object trees (depth <= 4; exposed/unexposed index, default, meth
         'dispatchers; index/default/aliases/_cp_config at every level) x paths walking the tree through attributes and '
         'dispatchers with punctuation variants, unknown names, vpath tails, %2F, dots, dunder names, trailing and doubled '
         'slashes, query strings and form bodies; default and method dispatcher, behind VirtualHost / XMLRPCDispatcher; '
-        'mount tables x SCRIPT_NAME/PATH_INFO pairs; non-trivial = the path has at least one segment; distinct = distinct '
+        'mount tables x SCRIPT_NAME/PATH_INFO pairs; 2 or 3 requests in flight in real threads, parked deterministically '
+        'at gate events of the generated tree (dispatcher calls, handler functions, attribute reads), resumed lifo/fifo; non-trivial = the path has at least one segment; distinct = distinct '
         '(tree, path, method, query, body, headers, wrapper)')
 
 NAMES = ['a', 'b', 'c', 'a_b', 'x_y', '_p', '__d', 'idx', 'Get', 'a_2Fb', '_', '__', 'café']
@@ -1462,6 +1464,242 @@ def gen_front(rng, spec, reqs):
 
 
 # ----------------------------------------------------------------------------------------------
+# concurrency: two or three requests in flight through ONE mounted application (one Dispatcher instance), in real
+# threads, gated deterministically where code of the generated tree runs during dispatch
+# ----------------------------------------------------------------------------------------------
+CONC_WAIT = 20.0       # wall seconds a scheduled thread may take to reach its gate / finish: beyond = no answer
+
+
+class Sched:
+    """Thread i runs until its `park_at`-th gate event (or to the end), then thread i+1 is started …; the last one
+    runs to the end; the parked ones are resumed (lifo: innermost first; fifo: first parked first).  Only
+    Event.wait hand-overs, no sleeps; a wait that times out is the observation "no answer"."""
+
+    def __init__(self):
+        self.plans = {}
+
+    def gate(self, kind, info):
+        import threading
+        st = self.plans.get(threading.get_ident())
+        if st is None:
+            return
+        n = st['count']
+        st['count'] = n + 1
+        if len(st['trace']) < 400:
+            st['trace'].append([kind, info if isinstance(info, (str, int)) else repr(info)])
+        if n == st['park_at'] and not st['released']:
+            st['parked_here'] = [kind, info]
+            st['stopped'].set()
+            if not st['resume'].wait(CONC_WAIT * 3):
+                st['gave_up'] = True
+
+
+def run_conc(built, runner, items, order='lifo'):
+    """items: [(request, park_at | None)]; returns [obs] (obs['hang'] when a thread did not answer in time;
+    obs['parked'] = the gate it was parked at, if it got there)."""
+    import threading
+    sched = Sched()
+    built.gate = sched.gate
+    states = []
+    try:
+        for r, park_at in items:
+            p, m, q, b, h = _rq(r)
+            st = {'count': 0, 'trace': [], 'park_at': -1 if park_at is None else park_at, 'released': False,
+                  'stopped': threading.Event(), 'resume': threading.Event(), 'done': threading.Event(),
+                  'obs': None, 'parked_here': None}
+
+            def body(st=st, p=p, m=m, q=q, b=b, h=h):
+                sched.plans[threading.get_ident()] = st
+                try:
+                    st['obs'] = T.get_in_thread(runner, p, m, query=q, req_body=b.encode('utf-8') if b else None,
+                                                headers=h)
+                except BaseException as e:      # nothing may be lost silently in a worker thread
+                    st['error'] = repr(e)
+                finally:
+                    st['done'].set()
+                    st['stopped'].set()
+            th = threading.Thread(target=body, daemon=True)
+            st['thread'] = th
+            states.append(st)
+            th.start()
+            if not st['stopped'].wait(CONC_WAIT):
+                st['hang'] = True
+                break
+        parked = [st for st in states if not st['done'].is_set() and not st.get('hang')]
+        for st in (reversed(parked) if order == 'lifo' else parked):
+            st['released'] = True
+            st['resume'].set()
+            if not st['done'].wait(CONC_WAIT):
+                st['hang'] = True
+        # whoever is still parked (after a hang) is let go; the threads are daemons
+        for st in states:
+            st['released'] = True
+            st['resume'].set()
+    finally:
+        built.gate = None
+    out = []
+    for st in states:
+        o = st['obs']
+        if o is None:
+            o = {'status': 0, 'ran': [], 'kwargs': [], 'allow': None, 'path_info': None, 'disp_log': [],
+                 'hang': True, 'error': st.get('error')}
+        elif st.get('hang'):
+            o = dict(o, hang=True)
+        o['parked'] = st['parked_here']
+        o['trace'] = st['trace']
+        out.append(o)
+    while len(out) < len(items):
+        out.append(None)          # never started (an earlier thread did not answer)
+    return out
+
+
+def conc_case_messages(c):
+    """One concurrency case from scratch: [(what, signature)].  Each request is first served alone (same
+    application, nothing else in flight): that answer is the reference; then the requests are served interleaved as
+    the case says and every one of them must get the answer it got alone, and satisfy the statement by itself."""
+    spec, kind = c['tree'], c['kind']
+    try:
+        built = T.Built(spec, instrument=True, gates=True)
+        runner = T.Runner(built, kind, sections=spec.get('sections') or {})
+    except common.HarnessError:
+        raise
+    except Exception as e:
+        return [('the object tree could not be set up: %s: %s' % (type(e).__name__, e), 'tree_setup_raised')], None
+    items = [(tuple(r), k) for r, k in c['conc']]
+    solo = []
+    for r, k in items:
+        p, m, q, b, h = _rq(r)
+        solo.append(runner.get(p, m, query=q, req_body=b.encode('utf-8') if b else None, headers=h))
+        if solo[-1].get('hang'):
+            return [('the request for %r did not produce an answer (dispatcher does not terminate)' % p,
+                     'no_answer')], None
+    obs = run_conc(built, runner, items, c.get('order', 'lifo'))
+    msgs = []
+    for (r, k), s0, o in zip(items, solo, obs):
+        if o is None:
+            continue
+        single = _mk_case(spec, kind, r)
+        if o.get('hang'):
+            msgs.append(('request %r did not produce an answer while %s were in flight (parked at %s)'
+                         % (r[0], [x[0][0] for x in items], o.get('parked')), 'no_answer_concurrent'))
+            continue
+        for what, sig in oracle(built, single, o):
+            msgs.append(('with %s in flight (this one parked at %s): %s'
+                         % ([x[0][0] for x in items], o.get('parked'), what), sig))
+        a, b2 = strip_obs(s0), strip_obs(o)
+        if a != b2:
+            msgs.append(('request %s %r answered %s alone but %s while %s were in flight (schedule: park at gate '
+                         'events %s, resume %s; this one parked at %s)'
+                         % (r[1], r[0], a, b2, [x[0][0] for x in items], [k2 for _, k2 in items],
+                            c.get('order', 'lifo'), o.get('parked')), 'not_pure_concurrent'))
+    return msgs, (solo, obs)
+
+
+def gate_trace(spec, kind, r):
+    """The gate events of one request served alone."""
+    built = T.Built(spec, instrument=True, gates=True)
+    runner = T.Runner(built, kind, sections=spec.get('sections') or {})
+    trace = []
+    built.gate = lambda kind_, info: trace.append((kind_, info))
+    try:
+        p, m, q, b, h = _rq(r)
+        o = runner.get(p, m, query=q, req_body=b.encode('utf-8') if b else None, headers=h)
+    finally:
+        built.gate = None
+    return trace, o
+
+
+def pick_gates(rng, trace, n=3):
+    """Where to park: inside a dispatcher / popargs handler function (the walk is half done), at a late
+    `default` / `index` / `exposed` lookup (the scan), and anywhere."""
+    if not trace:
+        return [None]
+    inside = [i for i, (k, _) in enumerate(trace) if k in ('disp_enter', 'disp_exit', 'handler_fn')]
+    late = [i for i, (k, info) in enumerate(trace) if k == 'attr' and info in ('default', 'index', 'exposed')]
+    out = []
+    if inside:
+        out.append(rng.choice(inside))
+    if late:
+        out.append(rng.choice(late[len(late) // 2:]))
+    out.append(rng.randrange(len(trace)))
+    return list(dict.fromkeys(out))[:n]
+
+
+def gen_conc_cases(rng, n_trees, per_tree=4):
+    cases = []
+    for i in range(n_trees):
+        kind = 'M' if i % 7 == 6 else 'D'
+        spec = gen_levels(rng, kind) if i % 4 != 3 else gen_tree(rng, kind, True)
+        mk = (lambda: _rich_req(rng, kind, gen_path_levels(rng, spec))) if i % 4 != 3 else \
+            (lambda: (gen_path(rng, spec), rng.choice(REQ_METHODS) if kind == 'M' else 'GET'))
+        reqs = [_rq(mk()) for _ in range(6)]
+        try:
+            traces = [gate_trace(spec, kind, r)[0] for r in reqs]
+        except common.HarnessError:
+            raise
+        except Exception:
+            traces = [[] for r in reqs]      # the failure shows again (and is reported) when the case runs
+        for _ in range(per_tree):
+            ia = rng.randrange(len(reqs))
+            others = [j for j in range(len(reqs)) if reqs[j][:2] != reqs[ia][:2]] or [ia]
+            ib = rng.choice(others)
+            ka = rng.choice(pick_gates(rng, traces[ia]))
+            conc = [[list(reqs[ia]), ka]]
+            if rng.random() < 0.25:
+                ic = rng.choice(others)
+                conc.append([list(reqs[ib]), rng.choice(pick_gates(rng, traces[ib]))])
+                conc.append([list(reqs[ic]), None])
+            else:
+                conc.append([list(reqs[ib]), None])
+            cases.append({'tree': spec, 'kind': kind, 'conc': conc, 'order': rng.choice(['lifo', 'lifo', 'fifo'])})
+    return cases
+
+
+def shrink_conc(case, sig, history=None):
+    def variants(c):
+        if len(c['conc']) > 2:
+            for i in range(1, len(c['conc'])):
+                yield dict(c, conc=c['conc'][:i] + c['conc'][i + 1:])
+        for i, (r, k) in enumerate(c['conc']):
+            for p in path_variants(r[0]):
+                yield dict(c, conc=c['conc'][:i] + [[[p] + list(r[1:]), k]] + c['conc'][i + 1:])
+            if r[2] or r[3]:
+                yield dict(c, conc=c['conc'][:i] + [[[r[0], r[1], '', None, r[4]], k]] + c['conc'][i + 1:])
+        for t in tree_variants(c['tree']):
+            yield dict(c, tree=t)
+
+    def messages(c):
+        return [w for w, s2 in conc_case_messages(c)[0] if s2 == sig]
+    small = shrink_generic(case, variants, lambda c: bool(messages(c)), budget=5 if 'no_answer' in sig else 150)
+    return small, (messages(small) or [None])[0]
+
+
+def check_conc(ctx, cases):
+    for c in cases:
+        if getattr(ctx, '_hangs', 0) >= 2:
+            ctx.note('stopped early: requests do not terminate')
+            break
+        msgs, runs = conc_case_messages(c)
+        ctx.case(c, key=json.dumps(c, sort_keys=True))
+        ctx.count('concurrent:%d_in_flight' % len(c['conc']))
+        ctx.count('concurrent_order:' + c.get('order', 'lifo'))
+        if runs is not None:
+            solo, obs = runs
+            for o in obs:
+                if o is None:
+                    continue
+                pk = o.get('parked')
+                ctx.count('concurrent_parked_at:%s' % (pk[0] if pk else 'not_parked'))
+                if pk and pk[0] == 'attr':
+                    ctx.count('concurrent_parked_attr:%s' % (pk[1] if pk[1] in ('default', 'index', 'exposed', '_cp_dispatch',
+                                                                              '_cp_config') else 'other'))
+        for what, sig in msgs:
+            if 'no_answer' in sig:
+                ctx._hangs = getattr(ctx, '_hangs', 0) + 1
+            report_failure(ctx, c, what, sig, shrink_conc, [])
+
+
+# ----------------------------------------------------------------------------------------------
 # mounts: Tree.script_name / Tree.__call__ (model: DispatchFn.scriptName / treeRoute)
 # ----------------------------------------------------------------------------------------------
 MOUNT_KEYS = ['', '/app', '/app/sub', '/app/sub/deep', '/a', '/a.b', '/App', '/app2', '/x%20y', 'rel', '/app/', '//dbl']
@@ -1814,6 +2052,9 @@ def check_case(ctx, c):
     if 'mounts' in c:
         check_mounts(ctx, [c])
         return
+    if 'conc' in c:
+        check_conc(ctx, [c])
+        return
     if c.get('history'):
         for what, sig in case_messages(c):
             ctx.oracle_fail(c, what, sig)
@@ -1898,10 +2139,12 @@ def _run(ctx):
         check_batch(ctx, gen_batch(ctx.rng, 900))
         check_batch(ctx, gen_batch_levels(ctx.rng, 320))
         check_mounts(ctx, [gen_mount_case(ctx.rng) for _ in range(60)])
+        check_conc(ctx, gen_conc_cases(ctx.rng, 90))
         return
     check_mounts(ctx, [gen_mount_case(ctx.rng) for _ in range(1500)])
+    check_conc(ctx, gen_conc_cases(ctx.rng, 1000))
     _WORKER_LEAN[0] = ctx.lean
-    jobs = [(ctx.rng.randrange(1 << 30), 900, 'thorough') for _ in range(48)]
+    jobs = [(ctx.rng.randrange(1 << 30), 750, 'thorough') for _ in range(48)]
     for res in common.parallel_map(_worker, jobs):
         _merge(ctx, res)
     total = sum(1 for _ in enum_small())
@@ -1929,8 +2172,15 @@ def search(ctx, around=None):
         check_batch(ctx, [(spec, kind, reqs, True, True)], compare_model=False)
         if ctx.oracle_failures:
             return
+    if around is not None and 'conc' in around:
+        check_conc(ctx, [around])
+        if ctx.oracle_failures:
+            return
     # trees full of dispatchers, judged through what the recording wrappers saw
     check_batch(ctx, gen_batch_levels(ctx.rng, 300), compare_model=False)
+    if ctx.oracle_failures:
+        return
+    check_conc(ctx, gen_conc_cases(ctx.rng, 150))
     if ctx.oracle_failures:
         return
     # dispatcher-free trees get the full reference resolver
@@ -1944,6 +2194,16 @@ def search(ctx, around=None):
 
 
 def replay(ctx, case):
+    if 'conc' in case:
+        msgs, runs = conc_case_messages(case)
+        if runs:
+            for (r, k), s0, o in zip(case['conc'], runs[0], runs[1]):
+                print('request:', r, 'park at gate event', k, '(%s)' % case.get('order', 'lifo'))
+                print('  alone     :', json.dumps(strip_obs(s0)))
+                print('  in flight :', json.dumps(strip_obs(o)) if o else None, 'parked at', o and o.get('parked'))
+        print('oracle :', msgs or 'holds')
+        check_conc(ctx, [case])
+        return
     if 'mounts' in case:
         keys, obs = run_mounts(case)
         print('mounted:', keys)
